@@ -1,5 +1,7 @@
 SPECIFICATION Spec
 CONSTANTS
+  StepRecovery = FALSE
+  RCrashes = 0
   Order <- Two
   MarkersFirst = FALSE
 INVARIANTS CountInBounds ClosedClean RecoveredClean
